@@ -125,18 +125,11 @@ def setup(ctx):
         _parser = oal.OALParser()      # builds the LALR tables from the grammar of the workspace copy
     except Exception:                  # e.g. ply.yacc.YaccError: the grammar does not build; every case will say so
         _parser = None
-    # the harness's lexer object is the one the LIBRARY builds: the current `OALParser.text_input` is run up to the point
-    # where it hands its lexer to the parser (so every attribute it sets on the lexer — `label`, … — is there); only if
-    # that does not yield a lexer (text_input rewritten beyond recognition) a raw PLY lexer is built here
-    _lexer = None
-    try:
-        _lexer = _library_lexer().lexer
-    except Exception:
-        _lexer = None
-    if _lexer is None:
-        _lexer = lex.lex(module=_parser if _parser is not None else object.__new__(oal.OALParser), optimize=1,
-                         outputdir=os.path.dirname(oal.__file__), lextab='bridgepoint.__oal_lextab')
-        _lexer.label = '<harness>'
+    # the harness's lexer object is the one the LIBRARY builds: gen_oal_text.oal_lexer (shared with C08 / C13) runs the
+    # current `OALParser.text_input` up to the point where it hands its lexer to the LALR parser, so the lexer carries
+    # text_input's own lex.lex arguments and every attribute it sets (`label`, ...); nothing reads `oal.logger`
+    import gen_oal_text as G
+    _lexer = G.oal_lexer(_parser if _parser is not None else object.__new__(oal.OALParser), '<harness>')
     here = os.path.realpath(os.path.dirname(oal.__file__))
     for name in ('bridgepoint.__oal_parsetab', 'bridgepoint.__oal_lextab'):
         m = sys.modules.get(name)
@@ -1409,23 +1402,6 @@ def _norm_tok(k, lx):
     return [S(k), lx]
 
 
-class _Capture(object):
-    """stands in for `OALParser.parser`: records the lexer `text_input` built and the tokens it yields on the text"""
-
-    def __init__(self, drain):
-        self.lexer = None
-        self.tokens = None
-        self.drain = drain
-
-    def parse(self, *args, **kw):
-        self.lexer = kw.get('lexer')
-        text = kw.get('input', args[0] if args else None)
-        if self.drain and self.lexer is not None and text is not None:
-            self.lexer.input(text)
-            self.tokens = _drain(self.lexer)
-        return None
-
-
 def _drain(lx):
     got = []
     while True:
@@ -1436,36 +1412,23 @@ def _drain(lx):
     return got
 
 
-def _library_lexer(text=None):
-    """runs the CURRENT `OALParser.text_input` of the workspace copy on a shallow copy of the parser object whose
-    `parser` attribute only records: -> the capture (its `.lexer` is the lexer exactly as the library builds and
-    decorates it; with a text, `.tokens` are the tokens that lexer yields on it)"""
-    import copy
-    p = copy.copy(_parser) if _parser is not None else object.__new__(_oal.OALParser)
-    cap = _Capture(text is not None)
-    p.parser = cap
-    p.text_input(text if text is not None else '\n')
-    return cap
-
-
 def _ply_tokens(text, lx=None):
     """the real lexer's tokens of text + line break.  Fast path: a clone of the lexer object built in setup.  The
     property is about `oal.parse(text)`: an exception below the harness's OWN lexer object is not the library's
-    fault unless the library's own route (`text_input` creating its lexer for this text) fails as well — then the
-    parse of the same text reports it (signature parser-raised-…)."""
+    fault unless a lexer freshly built by the library's own `text_input` fails on the text as well — then the parse of
+    the same text reports it (signature parser-raised-…)."""
     try:
         lx = lx or _lexer.clone()
         lx.input(text + '\n')
         return _drain(lx)
     except Exception:
         try:
-            got = _library_lexer(text + '\n').tokens
+            import gen_oal_text as G
+            lx2 = G.oal_lexer(_parser if _parser is not None else object.__new__(_oal.OALParser), '<harness>')
+            lx2.input(text + '\n')
+            return _drain(lx2)
         except Exception as e:
             return [('lexer-raised', type(e).__name__)]
-        if got is None:
-            from common import HarnessError
-            raise HarnessError('the harness lexer failed on %r and OALParser.text_input did not hand a lexer to the parser' % text)
-        return got
 
 
 def _ply_tree(text, via_parse):
